@@ -129,6 +129,9 @@ CASES = [
     ("stats-density-normalised-by-sum", ["C20"], "stats.py", "    totals /= totals.mean()\n", "    totals /= totals.sum()\n", M),
     ("stats-density-clip-before-normalise", ["C20"], "stats.py", "    totals /= totals.mean()\n    totals[totals < 0] = 0\n", "    totals[totals < 0] = 0\n    totals /= totals.mean()\n", M),
     ("stats-density-first-datum-only", ["C20"], "stats.py", "        totals[i] = (density.sum() - 0.5) / scale", "        totals[i] = (density[0] * density.size - 0.5) / scale", M),
+    ("geo-angles-unclipped-single-variant", ["C14"], "geometry.py", "    angles = np.empty((q1_array.shape[0], q1_array.shape[1] * q2_array.shape[1]))\n", "    if q1_array.shape[1] == 1 and q2_array.shape[1] == 1:\n        return 2 * np.rad2deg(np.arccos(np.abs(np.sum(q1_array[:, 0] * q2_array[:, 0], axis=1))))\n    angles = np.empty((q1_array.shape[0], q1_array.shape[1] * q2_array.shape[1]))\n", M),
+    ("geo-angles-max-instead-of-min", ["C14"], "geometry.py", "    return np.array([np.min(a) for a in angles])", "    return np.array([np.max(a) for a in angles])", M),
+    ("geo-angles-no-abs", ["C14"], "geometry.py", "                    np.abs(\n                        np.clip(", "                    (\n                        np.clip(", M),
     # ---------------- benign refactors (must stay silent)
     ("benign-rename-locals", ["C02", "C03"], "core.py", "    invariants = np.zeros(4)\n    for i in range(3):\n        for j in range(3):\n            # (010)[100]\n            invariants[0] +=",
      "    invariants = np.zeros(4)\n    for i in range(3):\n        for j in range(3):\n            # slip system (010)[100]\n            invariants[0] +=", B),
@@ -161,6 +164,13 @@ CASES = [
     ("benign-corner-factor", ["C18"], "velocity.py", "    prefactor = 4 * plate_speed / (np.pi * (h**2 + v**2) ** 2)", "    r2 = h**2 + v**2\n    prefactor = 4 * plate_speed / (np.pi * r2 * r2)", B),
     ("benign-config-local", ["C19"], "io.py", "    n_provided = len(_params[\"disl_coefficients\"])", "    coeffs = _params[\"disl_coefficients\"]\n    n_provided = len(coeffs)", B),
     ("benign-gbs-where", ["C09", "C01"], "utils.py", "    fractions[mask] = gbs_threshold / n_grains\n", "    fractions[:] = np.where(mask, gbs_threshold / n_grains, fractions)\n", B),
+    ("benign-mindex-comprehension-loop", ["C14"], "diagnostics.py", "    misorientations_theory = np.array(\n        [\n            _stats.misorientations_random(bin_edges[i], bin_edges[i + 1], system)\n            for i in range(len(misorientations_count))\n        ]\n    )",
+     "    theory = []\n    for lo, hi in zip(bin_edges[:-1], bin_edges[1:]):\n        theory.append(_stats.misorientations_random(lo, hi, system))\n    misorientations_theory = np.array(theory)", B),
+    ("benign-mindex-nbins-local", ["C14"], "diagnostics.py", "    return (θmax / (2 * len(misorientations_count))) * np.sum(\n        np.abs(misorientations_theory - misorientations_count)\n    )",
+     "    nbins = len(misorientations_count)\n    total = np.sum(np.abs(misorientations_count - misorientations_theory))\n    return θmax / (2 * nbins) * total", B),
+    ("benign-mindices-pool-loop", ["C14"], "diagnostics.py", "        else:\n            for i, out in enumerate(pool.imap(_run, orientation_stack)):\n                m_indices[i] = out\n    return m_indices", "        else:\n            m_indices[:] = list(pool.imap(_run, orientation_stack))\n    return m_indices", B),
+    ("benign-angles-clip-local", ["C14"], "geometry.py", "                np.arccos(\n                    np.abs(\n                        np.clip(\n                            np.sum(q1_array[:, i] * q2_array[:, j], axis=1),\n                            -1.0,\n                            1.0,\n                        )\n                    )\n                )",
+     "                np.arccos(\n                    np.abs(\n                        np.clip(\n                            (q1_array[:, i] * q2_array[:, j]).sum(axis=1),\n                            -1.0,\n                            1.0,\n                        )\n                    )\n                )", B),
     ("benign-density-axial-ifexp", ["C20"], "stats.py", "        if axial:\n            products = np.abs(products)\n", "        products = np.abs(products) if axial else products\n", B),
     ("benign-density-kernel-lookup-hoisted", ["C20"], "stats.py", "    weights = np.asarray(weights, dtype=np.float64)\n", "    weights = np.asarray(weights, dtype=np.float64)\n    kernel_func = SPHERICAL_COUNTING_KERNELS[kernel]\n", B),
     ("benign-density-weighted-sum", ["C20"], "stats.py", "        density *= weights\n        totals[i] = (density.sum() - 0.5) / scale", "        totals[i] = (np.sum(density * weights) - 0.5) / scale", B),
